@@ -2,11 +2,13 @@ package vquery
 
 import (
 	"fmt"
-	"time"
 	"os"
 	"path/filepath"
 	"sort"
 	"strings"
+	"time"
+
+	"github.com/dolthub/dolt/go/libraries/doltcore/dbfactory"
 
 	"verif/rig"
 	"verif/sqlrig"
@@ -228,9 +230,11 @@ func c36(c *rig.Ctx) {
 					cnt.add("sql.loads_failed", 1)
 					// the plain load stops at the first error. So that the rest of the dump is still judged, the dump is loaded
 					// again into a fresh empty repository with --continue (the failure above stays reported).
-					os.RemoveAll(dst)
+					dropRepo(dst)
 					rig.Must(mustCLI(dst, home, "init"))
-					doltCLI(dst, home, "sql", "--continue", "--file", file)
+					if code, out := doltCLI(dst, home, "sql", "--continue", "--file", file); code != 0 {
+						c.Note("load --continue exit " + fmt.Sprint(code) + ": " + truncate(out, 300))
+					}
 				} else {
 					cnt.add("sql.loads_ok", 1)
 				}
@@ -375,14 +379,65 @@ func diffRows(route string, t *c36table, want, have *c36snapTable) (string, stri
 	if len(w) != len(h) {
 		return "rowcount", fmt.Sprintf("%d rows in the source, %d in the copy", len(w), len(h))
 	}
-	for i := range w {
-		for j := range w[i] {
-			if w[i][j] != h[i][j] {
-				return fam[j] + "/" + classifyCell(w[i][j], h[i][j]), fmt.Sprintf("column %s (%s), sorted row %d: source %s copy %s", want.Cols[j], t.Cols[j].Type, i, showCell(w[i][j]), showCell(h[i][j]))
+	// multiset difference first: rows present on one side only. Pairing rows by their sorted position would blame the
+	// wrong column when a change in one cell moves a row past other rows (keyless tables, duplicate rows).
+	join := func(r []string) string { return strings.Join(r, "\x1f") }
+	count := map[string]int{}
+	for _, r := range h {
+		count[join(r)]++
+	}
+	var srcOnly, cpOnly [][]string
+	for _, r := range w {
+		if k := join(r); count[k] > 0 {
+			count[k]--
+		} else {
+			srcOnly = append(srcOnly, r)
+		}
+	}
+	count = map[string]int{}
+	for _, r := range w {
+		count[join(r)]++
+	}
+	for _, r := range h {
+		if k := join(r); count[k] > 0 {
+			count[k]--
+		} else {
+			cpOnly = append(cpOnly, r)
+		}
+	}
+	if len(srcOnly) == 0 {
+		return "", ""
+	}
+	// the first source-only row is explained by the copy-only row that differs from it in the fewest cells
+	src := srcOnly[0]
+	best, bestDiff := -1, 1<<30
+	for k, r := range cpOnly {
+		d := 0
+		for j := range src {
+			if src[j] != r[j] {
+				d++
 			}
+		}
+		if d < bestDiff {
+			best, bestDiff = k, d
+		}
+	}
+	if best < 0 {
+		return "rowcount", "a source row has no counterpart in the copy"
+	}
+	for j := range src {
+		if src[j] != cpOnly[best][j] {
+			return fam[j] + "/" + classifyCell(src[j], cpOnly[best][j]), fmt.Sprintf("column %s (%s): source %s copy %s (%d source-only rows, closest copy-only row differs in %d cells)", want.Cols[j], t.Cols[j].Type, showCell(src[j]), showCell(cpOnly[best][j]), len(srcOnly), bestDiff)
 		}
 	}
 	return "", ""
+}
+
+// dropRepo removes a repository directory AND its entry in dolt's in-process singleton database cache (the CLI runs
+// in-process: a later `dolt init` at the same path must not be handed the store object of the deleted repository).
+func dropRepo(dir string) {
+	dbfactory.DeleteFromSingletonCache(dbfactory.SingletonCacheKeyForDatabaseDir(dir), true)
+	os.RemoveAll(dir)
 }
 
 // classifyCell names the kind of change between a source cell and its copy (part of the violation key).
